@@ -508,7 +508,11 @@ func bindExprs(text string) map[string]*regexp.Regexp {
 			if e.BindParameters == nil {
 				continue
 			}
-			for _, p := range e.BindParameters.Parameters {
+			ps := e.BindParameters.Parameters
+			if len(ps) > 0 && ps[0].Value.Literal != nil {
+				continue // a match-all list: its further parameters are options (also `capture: /2/`), not constrained binds
+			}
+			for _, p := range ps {
 				if p.Value.Regex != nil {
 					if re, err := regexp.Compile("^(?:" + *p.Value.Regex + ")$"); err == nil {
 						out[p.Ident] = re
